@@ -104,32 +104,35 @@ fn has(context: &Context, id: WorkId) -> bool {
 fn bytes_for(context: &Context, id: WorkId) -> Result<Option<Vec<u8>>, Error> {
     // TODO: to_vec copies :(
     let bytes = match id {
-        WorkId::Avar => context.avar.get().as_ref().as_ref().and_then(to_bytes),
-        WorkId::Cmap => to_bytes(context.cmap.get().as_ref()),
-        WorkId::Colr => to_bytes(context.colr.get().as_ref()),
-        WorkId::Cpal => to_bytes(context.cpal.get().as_ref()),
-        WorkId::Fvar => to_bytes(context.fvar.get().as_ref()),
-        WorkId::Head => to_bytes(context.head.get().as_ref()),
-        WorkId::Hhea => to_bytes(context.hhea.get().as_ref()),
+        WorkId::Avar => match context.avar.get().as_ref().as_ref() {
+            Some(avar) => to_bytes(avar)?,
+            None => None,
+        },
+        WorkId::Cmap => to_bytes(context.cmap.get().as_ref())?,
+        WorkId::Colr => to_bytes(context.colr.get().as_ref())?,
+        WorkId::Cpal => to_bytes(context.cpal.get().as_ref())?,
+        WorkId::Fvar => to_bytes(context.fvar.get().as_ref())?,
+        WorkId::Head => to_bytes(context.head.get().as_ref())?,
+        WorkId::Hhea => to_bytes(context.hhea.get().as_ref())?,
         WorkId::Hmtx => Some(context.hmtx.get().as_ref().get().to_vec()),
-        WorkId::Gasp => to_bytes(context.gasp.get().as_ref()),
+        WorkId::Gasp => to_bytes(context.gasp.get().as_ref())?,
         WorkId::Glyf => Some(context.glyf.get().as_ref().get().to_vec()),
-        WorkId::Gpos => to_bytes(context.gpos.get().as_ref()),
-        WorkId::Gsub => to_bytes(context.gsub.get().as_ref()),
-        WorkId::Gdef => to_bytes(context.gdef.get().as_ref()),
+        WorkId::Gpos => to_bytes(context.gpos.get().as_ref())?,
+        WorkId::Gsub => to_bytes(context.gsub.get().as_ref())?,
+        WorkId::Gdef => to_bytes(context.gdef.get().as_ref())?,
         WorkId::Gvar => Some(context.gvar.get().as_ref().get().to_vec()),
         WorkId::Loca => Some(context.loca.get().as_ref().get().to_vec()),
-        WorkId::Maxp => to_bytes(context.maxp.get().as_ref()),
-        WorkId::Name => to_bytes(context.name.get().as_ref()),
-        WorkId::Os2 => to_bytes(context.os2.get().as_ref()),
-        WorkId::Post => to_bytes(context.post.get().as_ref()),
-        WorkId::Stat => to_bytes(context.stat.get().as_ref()),
-        WorkId::Hvar => to_bytes(context.hvar.get().as_ref()),
-        WorkId::Mvar => to_bytes(context.mvar.get().as_ref()),
-        WorkId::Meta => to_bytes(context.meta.get().as_ref()),
-        WorkId::Vhea => to_bytes(context.vhea.get().as_ref()),
+        WorkId::Maxp => to_bytes(context.maxp.get().as_ref())?,
+        WorkId::Name => to_bytes(context.name.get().as_ref())?,
+        WorkId::Os2 => to_bytes(context.os2.get().as_ref())?,
+        WorkId::Post => to_bytes(context.post.get().as_ref())?,
+        WorkId::Stat => to_bytes(context.stat.get().as_ref())?,
+        WorkId::Hvar => to_bytes(context.hvar.get().as_ref())?,
+        WorkId::Mvar => to_bytes(context.mvar.get().as_ref())?,
+        WorkId::Meta => to_bytes(context.meta.get().as_ref())?,
+        WorkId::Vhea => to_bytes(context.vhea.get().as_ref())?,
         WorkId::Vmtx => Some(context.vmtx.get().as_ref().get().to_vec()),
-        WorkId::Vvar => to_bytes(context.vvar.get().as_ref()),
+        WorkId::Vvar => to_bytes(context.vvar.get().as_ref())?,
         _ => panic!("Missing a match for {id:?}"),
     };
     Ok(bytes)
